@@ -2508,3 +2508,862 @@ Example ex_tr_old_assign_same_trace :
   map (tr_assign 15 [(4,1);(6,1);(8,1);(10,1);(11,2);(12,1);(13,1);(14,1);(15,3)]
                  7 [(2, 2); (4, 1); (6, 1); (7, 1)]) [0; 1; 2; 3; 4; 5; 6; 7].
 Proof. vm_compute. reflexivity. Qed.
+
+(* ========================================================================= *)
+(*  (g') the remaining Dense_Row construction paths                          *)
+(*  Dense_Row_inlines.hh / Dense_Row.cc, as written at HEAD                  *)
+(* ========================================================================= *)
+
+(* a Dense_Row constructor: `impl` is a fully constructed member, so when the
+   body throws ~Impl runs (destroy the impl.size constructed coefficients from
+   the end down, deallocate(vec, capacity)) and the object is dropped *)
+Definition row_ctor (body : M drow unit) : M unit drow :=
+  construct empty_row (try_catch body (impl_dtor ;;; throw)).
+
+Lemma row_ctor_sat : forall (body : M drow unit) (u : unit) h X (Q : drow -> Prop),
+  sat (body empty_row h)
+      (fun _ r h' => Q r /\ Lg (owned_row r ++ X) h')
+      (fun r h' => Lg (owned_row r ++ X) h') ->
+  sat (row_ctor body u h)
+      (fun r _ h' => Q r /\ Lg (owned_row r ++ X) h')
+      (fun _ h' => Lg X h').
+Proof.
+  intros body u h X Q H. unfold row_ctor.
+  eapply sat_construct with
+    (Q1 := fun _ r h' => Q r /\ Lg (owned_row r ++ X) h')
+    (E1 := fun _ h' => Lg X h').
+  - eapply sat_try.
+    + exact H.
+    + cbn beta. intros a s' h' H'; exact H'.
+    + cbn beta. intros s2 h2 HL2. eapply sat_bind.
+      * apply impl_dtor_sat; exact HL2.
+      * intros ? ? F; contradiction.
+      * cbn beta. intros _ s3 h3 HL3. cbn. exact HL3.
+  - cbn beta. intros _ s' h' H'; exact H'.
+  - cbn beta. intros s' h' H'; exact H'.
+Qed.
+
+(* impl.capacity = capacity; impl.vec = allocate(impl.capacity);  (ALWAYS
+   requested, also for capacity = 0: a request of 0 bytes) *)
+Definition row_alloc_vec (capacity : N) : M drow unit :=
+  modify (fun r => mkRow (vec r) capacity (coeffs r)) ;;;
+  nv <- alloc LNew (sz_coeff * capacity) ;;
+  modify (fun r => mkRow (Some nv) (cap r) (coeffs r)).
+
+Lemma row_alloc_vec_sat : forall capacity h X,
+  Lg X h ->
+  sat (row_alloc_vec capacity empty_row h)
+      (fun _ r h' => (exists nv, r = mkRow (Some nv) capacity []) /\ Lg (owned_row r ++ X) h')
+      (fun r h' => Lg (owned_row r ++ X) h').
+Proof.
+  intros capacity h X HL. unfold row_alloc_vec. rewrite bind_modify.
+  cbn [vec coeffs empty_row].
+  eapply sat_bind.
+  - apply alloc_sat; exact HL.
+  - cbn beta. intros s' h' [-> H]. exact H.
+  - cbn beta. intros nv s1 h1 [-> HL1]. cbn [modify sat cap coeffs].
+    split; [exists nv; reflexivity|]. unfold owned_row. cbn. exact HL1.
+Qed.
+
+(* default constructions: new (&vec[size]) Coefficient(); ++size;  no allocation *)
+Definition row_pad (m : nat) : M drow unit :=
+  modify (fun r => mkRow (vec r) (cap r) (coeffs r ++ repeat None m)).
+
+Lemma owned_row_pad : forall r m,
+  owned_row (mkRow (vec r) (cap r) (coeffs r ++ repeat None m)) = owned_row r.
+Proof.
+  intros r m. unfold owned_row. cbn [vec cap coeffs].
+  rewrite coeffs_blks_app, coeffs_blks_repeat_None, app_nil_r. reflexivity.
+Qed.
+
+(* ---- 1. Dense_Row(const Dense_Row& y, dimension_type capacity) ----
+   y given as (ycap, limbs of each coefficient); y.vec != nullptr <-> ycap <> 0 *)
+Definition dense_copy_cap_body (ycap : N) (ycoeffs : list N) (capacity : N) : M drow unit :=
+  row_alloc_vec capacity ;;;
+  if N.eqb ycap 0 then ret tt else copy_coeffs ycoeffs.
+
+Definition dense_copy_cap (ycap : N) (ycoeffs : list N) (capacity : N) : M unit drow :=
+  row_ctor (dense_copy_cap_body ycap ycoeffs capacity).
+
+Lemma dense_copy_cap_sat : forall ycap ycoeffs capacity (u : unit) h X,
+  N.of_nat (length ycoeffs) <= capacity ->
+  Lg X h ->
+  sat (dense_copy_cap ycap ycoeffs capacity u h)
+      (fun r _ h' => (row_inv r /\ cap r = capacity /\
+                      dsize r = (if N.eqb ycap 0 then 0 else N.of_nat (length ycoeffs)))
+                     /\ Lg (owned_row r ++ X) h')
+      (fun _ h' => Lg X h').
+Proof.
+  intros ycap ycoeffs capacity u h X Hy HL. unfold dense_copy_cap.
+  apply row_ctor_sat with
+    (Q := fun r => row_inv r /\ cap r = capacity /\
+                   dsize r = (if N.eqb ycap 0 then 0 else N.of_nat (length ycoeffs))).
+  unfold dense_copy_cap_body. eapply sat_bind.
+  - apply row_alloc_vec_sat; exact HL.
+  - cbn beta. intros s' h' H; exact H.
+  - cbn beta. intros _ s1 h1 [[nv ->] HL1].
+    destruct (N.eqb ycap 0).
+    + cbn [ret sat]. split; [|exact HL1]. unfold row_inv, dsize. cbn.
+      split; [split; [discriminate | lia]|]. split; reflexivity.
+    + eapply sat_conseq.
+      * apply copy_coeffs_sat; exact HL1.
+      * cbn beta. cbn [vec cap coeffs length]. intros _ s2 h2 [A [B [C D]]].
+        split; [|exact D]. unfold row_inv, dsize. rewrite A, B, C. cbn [Nat.add].
+        split; [split; [discriminate | exact Hy]|]. split; reflexivity.
+      * cbn beta. intros s2 h2 H; exact H.
+Qed.
+
+Theorem dense_copy_cap_unwind_balanced : forall ycap ycoeffs capacity k h,
+  wf h -> N.of_nat (length ycoeffs) <= capacity ->
+  match dense_copy_cap ycap ycoeffs capacity tt (arm k h) with
+  | Ret r _ h' => wf h' /\ ledger_eq (live h') (owned_row r ++ live h)
+                  /\ row_inv r /\ NoDup (map fst (owned_row r)) /\ cap r = capacity
+                  /\ dsize r = (if N.eqb ycap 0 then 0 else N.of_nat (length ycoeffs))
+  | Exn _ h' => wf h' /\ ledger_eq (live h') (live h)
+  | Bad _ => False
+  end.
+Proof.
+  intros ycap ycoeffs capacity k h W Hy.
+  pose proof (dense_copy_cap_sat ycap ycoeffs capacity tt (arm k h) (live h) Hy
+                (Lg_arm k _ _ (Lg_self h W))) as H.
+  destruct (dense_copy_cap ycap ycoeffs capacity tt (arm k h)) as [r u h'|u h'|h']; cbn [sat] in H.
+  - destruct H as [[I [Hc Hs]] HL]. apply Lg_out in HL. tauto.
+  - exact H.
+  - exact H.
+Qed.
+
+Example dense_copy_cap_hyp_sat : wf empty_heap /\ N.of_nat (length [1; 0; 2]) <= 5.
+Proof. split; [exact wf_empty | cbn; lia]. Qed.
+
+(* ---- 2. Dense_Row(const Dense_Row& y, dimension_type sz, dimension_type capacity) ----
+   n = min(sz, y.size()); copy-construct n coefficients (++size after each), then
+   default-construct up to sz *)
+Definition dense_copy_sized_body (ycoeffs : list N) (sz capacity : N) : M drow unit :=
+  row_alloc_vec capacity ;;;
+  copy_coeffs (firstn (N.to_nat sz) ycoeffs) ;;;
+  r <- get ;;
+  row_pad (N.to_nat sz - length (coeffs r)).
+
+Definition dense_copy_sized (ycoeffs : list N) (sz capacity : N) : M unit drow :=
+  row_ctor (dense_copy_sized_body ycoeffs sz capacity).
+
+Lemma dense_copy_sized_sat : forall ycoeffs sz capacity (u : unit) h X,
+  sz <= capacity ->
+  Lg X h ->
+  sat (dense_copy_sized ycoeffs sz capacity u h)
+      (fun r _ h' => (row_inv r /\ cap r = capacity /\ dsize r = sz)
+                     /\ Lg (owned_row r ++ X) h')
+      (fun _ h' => Lg X h').
+Proof.
+  intros ycoeffs sz capacity u h X Hs HL. unfold dense_copy_sized.
+  apply row_ctor_sat with (Q := fun r => row_inv r /\ cap r = capacity /\ dsize r = sz).
+  unfold dense_copy_sized_body. eapply sat_bind.
+  - apply row_alloc_vec_sat; exact HL.
+  - cbn beta. intros s' h' H; exact H.
+  - cbn beta. intros _ s1 h1 [[nv ->] HL1]. eapply sat_bind.
+    + apply copy_coeffs_sat; exact HL1.
+    + cbn beta. intros s' h' H; exact H.
+    + cbn beta. cbn [vec cap coeffs length]. intros _ s2 h2 [A [B [C D]]].
+      rewrite bind_get. unfold row_pad. cbn [modify sat].
+      rewrite owned_row_pad. split; [|exact D].
+      unfold row_inv, dsize. cbn [vec cap coeffs]. rewrite A, B.
+      rewrite app_length, repeat_length, C. cbn [Nat.add].
+      rewrite firstn_length.
+      split; [split; [discriminate | lia]|]. split; [reflexivity | lia].
+Qed.
+
+Theorem dense_copy_sized_unwind_balanced : forall ycoeffs sz capacity k h,
+  wf h -> sz <= capacity ->
+  match dense_copy_sized ycoeffs sz capacity tt (arm k h) with
+  | Ret r _ h' => wf h' /\ ledger_eq (live h') (owned_row r ++ live h)
+                  /\ row_inv r /\ NoDup (map fst (owned_row r))
+                  /\ cap r = capacity /\ dsize r = sz
+  | Exn _ h' => wf h' /\ ledger_eq (live h') (live h)
+  | Bad _ => False
+  end.
+Proof.
+  intros ycoeffs sz capacity k h W Hs.
+  pose proof (dense_copy_sized_sat ycoeffs sz capacity tt (arm k h) (live h) Hs
+                (Lg_arm k _ _ (Lg_self h W))) as H.
+  destruct (dense_copy_sized ycoeffs sz capacity tt (arm k h)) as [r u h'|u h'|h']; cbn [sat] in H.
+  - destruct H as [[I [Hc Hd]] HL]. apply Lg_out in HL. tauto.
+  - exact H.
+  - exact H.
+Qed.
+
+Example dense_copy_sized_hyp_sat : wf empty_heap /\ 5 <= 6.
+Proof. split; [exact wf_empty | lia]. Qed.
+
+(* MUTANT (a seeded defect): impl.size is assigned once, after both loops, so
+   when a copy throws ~Impl sees size = 0 and destroys nothing *)
+Fixpoint copy_coeffs_local (ls : list N) : M drow (list (option (nat * N))) :=
+  match ls with
+  | [] => ret []
+  | lb :: rest =>
+      b <- alloc LGmp (limb_bytes lb) ;;
+      cs <- copy_coeffs_local rest ;;
+      ret (Some (b, limb_bytes lb) :: cs)
+  end.
+
+Definition dense_copy_sized_late_size (ycoeffs : list N) (sz capacity : N) : M unit drow :=
+  row_ctor
+    (row_alloc_vec capacity ;;;
+     cs <- copy_coeffs_local (firstn (N.to_nat sz) ycoeffs) ;;
+     (* impl.size = sz;  only now *)
+     modify (fun r => mkRow (vec r) (cap r) (cs ++ repeat None (N.to_nat sz - length cs)))).
+
+Theorem dense_copy_sized_late_size_refuted :
+  exists ycoeffs sz capacity k h, wf h /\ sz <= capacity /\ exists h',
+    dense_copy_sized_late_size ycoeffs sz capacity tt (arm k h) = Exn tt h' /\
+    ~ ledger_eq (live h') (live h).
+Proof.
+  exists [1; 1], 2, 2, 3%nat, empty_heap. split; [exact wf_empty|]. split; [lia|].
+  eexists. split; [vm_compute; reflexivity|].
+  vm_compute. intro P. apply Permutation_sym in P.
+  apply Permutation_nil in P. discriminate P.
+Qed.
+
+(* ---- 3. Dense_Row::resize(new_size, new_capacity)   Dense_Row.cc:91 ----
+   and Dense_Row(sz, capacity) = impl() then resize(sz, capacity).
+   NOTE (as written): when new_capacity == capacity() <> 0 NOTHING is done (the
+   size is not changed); when new_capacity < capacity() the row is shrunk to
+   new_size BEFORE the allocation, so on failure the receiver is the shrunk row
+   (valid, balanced), not the original one. *)
+Definition dense_resize2 (new_size new_capacity : N) : M drow unit :=
+  r <- get ;;
+  if N.eqb new_capacity 0 then
+    (* destroy(): resize(0) [= shrink(0)]; deallocate(vec, capacity); fields := 0 *)
+    shrink 0 ;;;
+    r' <- get ;;
+    free_opt LNew (vec r') ;;;
+    put empty_row
+  else if N.ltb new_capacity (cap r) then
+    shrink (N.to_nat new_size) ;;;
+    nv <- alloc LNew (sz_coeff * new_capacity) ;;
+    r' <- get ;;
+    free_opt LNew (vec r') ;;;                 (* memcpy; deallocate(vec, capacity) *)
+    modify (fun r => mkRow (Some nv) new_capacity (coeffs r))
+  else if N.ltb (cap r) new_capacity then
+    nv <- alloc LNew (sz_coeff * new_capacity) ;;
+    free_opt LNew (vec r) ;;;                  (* if (vec != 0) { memcpy; deallocate } *)
+    modify (fun r => mkRow (Some nv) new_capacity (coeffs r)) ;;;
+    dense_resize new_size                      (* resize(new_size) *)
+  else ret tt.
+
+Definition shrunk (n : N) (s : drow) : drow :=
+  mkRow (vec s) (cap s) (firstn (N.to_nat n) (coeffs s)).
+
+Lemma dense_resize2_sat : forall ns nc s h X,
+  row_inv s -> ns <= nc -> Lg (owned_row s ++ X) h ->
+  sat (dense_resize2 ns nc s h)
+      (fun _ s' h' => row_inv s' /\ cap s' = nc /\
+                      (cap s < nc -> dsize s' = ns) /\
+                      (nc < cap s -> dsize s' = N.min ns (dsize s)) /\
+                      Lg (owned_row s' ++ X) h')
+      (fun s' h' => row_inv s' /\ (s' = s \/ (nc < cap s /\ s' = shrunk ns s)) /\
+                    Lg (owned_row s' ++ X) h').
+Proof.
+  intros ns nc s h X [I0 I1] Hn HL. unfold dense_resize2. rewrite bind_get.
+  destruct (N.eqb_spec nc 0) as [E0|E0].
+  - (* new_capacity = 0 *)
+    eapply sat_bind.
+    + apply shrink_sat; exact HL.
+    + intros ? ? F; contradiction.
+    + cbn beta. intros _ s1 h1 [-> HL1]. rewrite bind_get. cbn [vec firstn].
+      eapply sat_bind.
+      * eapply free_opt_sat with (X := X); [exact HL1|].
+        unfold owned_row. cbn [vec cap coeffs coeffs_blks flat_map]. rewrite app_nil_r.
+        apply Permutation_refl.
+      * intros ? ? F; contradiction.
+      * cbn beta. intros _ s2 h2 [-> HL2]. cbn [put sat].
+        split; [apply row_inv_empty|]. split; [cbn; lia|].
+        split; [intros C; lia|]. split; [intros _; cbn; lia|]. cbn. exact HL2.
+  - destruct (N.ltb_spec nc (cap s)) as [Hlt|Hge].
+    + (* new_capacity < capacity *)
+      eapply sat_bind.
+      * apply shrink_sat; exact HL.
+      * intros ? ? F; contradiction.
+      * cbn beta. intros _ s1 h1 [-> HL1]. fold (shrunk ns s) in *.
+        assert (Is : row_inv (shrunk ns s)).
+        { unfold row_inv, shrunk, dsize in *. cbn [vec cap coeffs]. rewrite firstn_length.
+          split; [exact I0 | lia]. }
+        eapply sat_bind.
+        -- apply alloc_sat; exact HL1.
+        -- cbn beta. intros s' h' [-> H]. split; [exact Is|]. split; [right; split; [exact Hlt | reflexivity] | exact H].
+        -- cbn beta. intros nv s2 h2 [-> HL2]. rewrite bind_get.
+           eapply sat_bind.
+           ++ eapply free_opt_sat with
+                (X := (nv, (LNew, sz_coeff * nc)) :: coeffs_blks (coeffs (shrunk ns s)) ++ X);
+                [exact HL2|].
+              unfold owned_row. rewrite <- app_assoc. apply Permutation_middle.
+           ++ intros ? ? F; contradiction.
+           ++ cbn beta. intros _ s3 h3 [-> HL3]. cbn [modify sat].
+              unfold row_inv, dsize, shrunk, owned_row in *. cbn [vec cap coeffs opt_blk app].
+              rewrite firstn_length.
+              split; [split; [discriminate | lia]|]. split; [reflexivity|].
+              split; [intros C; lia|]. split; [intros _; lia | exact HL3].
+    + destruct (N.ltb_spec (cap s) nc) as [Hgt|Heq].
+      * (* new_capacity > capacity *)
+        eapply sat_bind.
+        -- apply alloc_sat; exact HL.
+        -- cbn beta. intros s' h' [-> H]. split; [split; assumption|]. split; [left; reflexivity | exact H].
+        -- cbn beta. intros nv s1 h1 [-> HL1]. eapply sat_bind.
+           ++ eapply free_opt_sat with
+                (X := (nv, (LNew, sz_coeff * nc)) :: coeffs_blks (coeffs s) ++ X); [exact HL1|].
+              unfold owned_row. rewrite <- app_assoc. apply Permutation_middle.
+           ++ intros ? ? F; contradiction.
+           ++ cbn beta. intros _ s2 h2 [-> HL2]. rewrite bind_modify.
+              set (s3 := mkRow (Some nv) nc (coeffs s)).
+              assert (I3 : row_inv s3).
+              { unfold row_inv, dsize, s3 in *. cbn [vec cap coeffs]. split; [discriminate | lia]. }
+              assert (HL3 : Lg (owned_row s3 ++ X) h2).
+              { unfold owned_row, s3. cbn [vec cap coeffs opt_blk app]. exact HL2. }
+              (* the final resize(new_size) cannot allocate (new_size <= new_capacity);
+                 the general spec of resize is used anyway *)
+              pose proof (dense_resize_sat ns s3 h2 X I3 HL3) as Hr.
+              unfold dense_resize in Hr |- *. rewrite bind_get in Hr |- *.
+              destruct (N.leb_spec ns (dsize s3)) as [Hle|Hgt2].
+              ** eapply sat_conseq; [apply shrink_sat; exact HL3| |].
+                 --- cbn beta. intros _ s' h' [-> HL']. unfold row_inv, dsize, s3 in *.
+                     cbn [vec cap coeffs] in *. rewrite firstn_length.
+                     split; [split; [discriminate | lia]|]. split; [reflexivity|].
+                     split; [intros _; lia|]. split; [intros C; lia | exact HL'].
+                 --- intros ? ? F; contradiction.
+              ** assert (Ec : N.ltb (cap s3) ns = false).
+                 { apply N.ltb_ge. unfold s3. cbn [cap]. exact Hn. }
+                 rewrite Ec. rewrite bind_ret. cbn [modify sat].
+                 rewrite owned_row_pad. unfold row_inv, dsize, s3 in *. cbn [vec cap coeffs] in *.
+                 rewrite app_length, repeat_length.
+                 split; [split; [discriminate | lia]|]. split; [reflexivity|].
+                 split; [intros _; lia|]. split; [intros C; lia | exact HL3].
+      * (* new_capacity = capacity: nothing is done *)
+        cbn [ret sat]. split; [split; assumption|]. split; [lia|].
+        split; [intros C; lia|]. split; [intros C; lia | exact HL].
+Qed.
+
+Theorem dense_resize2_unwind_balanced : forall ns nc r k h X,
+  wf h -> row_inv r -> ns <= nc -> ledger_eq (live h) (owned_row r ++ X) ->
+  match dense_resize2 ns nc r (arm k h) with
+  | Ret _ r' h' => wf h' /\ ledger_eq (live h') (owned_row r' ++ X)
+                   /\ row_inv r' /\ NoDup (map fst (owned_row r')) /\ cap r' = nc
+                   /\ (cap r < nc -> dsize r' = ns)
+                   /\ (nc < cap r -> dsize r' = N.min ns (dsize r))
+  | Exn r' h' => wf h' /\ ledger_eq (live h') (owned_row r' ++ X) /\ row_inv r'
+                 /\ (r' = r \/ (nc < cap r /\ r' = shrunk ns r))
+  | Bad _ => False
+  end.
+Proof.
+  intros ns nc r k h X W I Hn P.
+  pose proof (dense_resize2_sat ns nc r (arm k h) X I Hn (Lg_arm k _ _ (conj W P))) as H.
+  destruct (dense_resize2 ns nc r (arm k h)) as [a r' h'|r' h'|h']; cbn [sat] in H.
+  - destruct H as [I' [Hc [H1 [H2 HL]]]]. apply Lg_out in HL. tauto.
+  - destruct H as [I' [D [W' P']]]. auto.
+  - exact H.
+Qed.
+
+Example dense_resize2_hyp_sat :
+  wf empty_heap /\ row_inv empty_row /\ 2 <= 3 /\
+  ledger_eq (live empty_heap) (owned_row empty_row ++ []).
+Proof.
+  split; [exact wf_empty|]. split; [exact row_inv_empty|]. split; [lia | apply Permutation_refl].
+Qed.
+
+(* "receiver unchanged on failure" is FALSE for the shrinking-capacity branch *)
+Definition dense_resize2_receiver_unchanged_full : Prop :=
+  forall ns nc r k h X,
+  wf h -> row_inv r -> ns <= nc -> ledger_eq (live h) (owned_row r ++ X) ->
+  match dense_resize2 ns nc r (arm k h) with
+  | Exn r' _ => r' = r
+  | _ => True
+  end.
+
+Definition wit_row : drow := mkRow (Some 0%nat) 3 [Some (1%nat, 8); None].
+Definition wit_row_heap : heap :=
+  mkHeap 2 [(1%nat, (LGmp, 8)); (0%nat, (LNew, 48))] None [].
+
+Lemma wit_row_ok : wf wit_row_heap /\ row_inv wit_row /\
+                   ledger_eq (live wit_row_heap) (owned_row wit_row ++ []).
+Proof.
+  split; [|split].
+  - split; cbn.
+    + constructor; [intros [H|[]]; discriminate H|]. constructor; [intros []|constructor].
+    + repeat constructor.
+  - split; cbn; [discriminate | lia].
+  - cbn. apply perm_swap.
+Qed.
+
+Theorem dense_resize2_receiver_unchanged_refuted : ~ dense_resize2_receiver_unchanged_full.
+Proof.
+  intro F. destruct wit_row_ok as [W [I P]].
+  specialize (F 0 2 wit_row 1%nat wit_row_heap [] W I).
+  assert (H02 : 0 <= 2) by lia. specialize (F H02 P).
+  vm_compute in F. discriminate F.
+Qed.
+
+(* Dense_Row(sz, capacity) *)
+Definition dense_ctor_sized (sz capacity : N) : M unit drow :=
+  row_ctor (dense_resize2 sz capacity).
+
+Theorem dense_ctor_sized_unwind_balanced : forall sz capacity k h,
+  wf h -> sz <= capacity ->
+  match dense_ctor_sized sz capacity tt (arm k h) with
+  | Ret r _ h' => wf h' /\ ledger_eq (live h') (owned_row r ++ live h)
+                  /\ row_inv r /\ NoDup (map fst (owned_row r))
+                  /\ cap r = capacity /\ (capacity <> 0 -> dsize r = sz)
+  | Exn _ h' => wf h' /\ ledger_eq (live h') (live h)
+  | Bad _ => False
+  end.
+Proof.
+  intros sz capacity k h W Hs.
+  assert (H : sat (dense_ctor_sized sz capacity tt (arm k h))
+                  (fun r _ h' => (row_inv r /\ cap r = capacity /\ (capacity <> 0 -> dsize r = sz))
+                                 /\ Lg (owned_row r ++ live h) h')
+                  (fun _ h' => Lg (live h) h')).
+  { unfold dense_ctor_sized.
+    apply row_ctor_sat with
+      (Q := fun r => row_inv r /\ cap r = capacity /\ (capacity <> 0 -> dsize r = sz)).
+    eapply sat_conseq.
+    - apply (dense_resize2_sat sz capacity empty_row (arm k h) (live h) row_inv_empty Hs).
+      cbn [owned_row empty_row vec cap coeffs opt_blk coeffs_blks flat_map app].
+      apply Lg_arm. apply Lg_self. exact W.
+    - cbn beta. cbn [cap empty_row]. intros _ r h' [I [Hc [H1 [_ HL]]]].
+      split; [|exact HL]. split; [exact I|]. split; [exact Hc|]. intros Hn. apply H1. lia.
+    - cbn beta. intros r h' [_ [_ HL]]. exact HL. }
+  destruct (dense_ctor_sized sz capacity tt (arm k h)) as [r u h'|u h'|h']; cbn [sat] in H.
+  - destruct H as [[I [Hc Hd]] HL]. apply Lg_out in HL. tauto.
+  - exact H.
+  - exact H.
+Qed.
+
+Example dense_ctor_sized_hyp_sat : wf empty_heap /\ 3 <= 4.
+Proof. split; [exact wf_empty | lia]. Qed.
+
+(* ---- 4. Dense_Row(const Sparse_Row& row) = init(row)   Dense_Row.cc:313 ----
+   the sparse row as (size, (index, limbs) of its stored elements); the iterator
+   visits them by ascending index (modelled: sorted by index) *)
+Fixpoint sparse_fill (n : nat) (i : N) (it : list (N * N)) : M drow unit :=
+  match n with
+  | O => ret tt
+  | S n' =>
+      match it with
+      | (idx, lb) :: it' =>
+          if N.eqb idx i
+          then (* new (&vec[size]) Coefficient( *itr); ++itr; ++size *)
+               b <- alloc LGmp (limb_bytes lb) ;;
+               modify (fun r => mkRow (vec r) (cap r) (coeffs r ++ [Some (b, limb_bytes lb)])) ;;;
+               sparse_fill n' (i + 1) it'
+          else row_pad 1 ;;; sparse_fill n' (i + 1) it
+      | [] => row_pad 1 ;;; sparse_fill n' (i + 1) []
+      end
+  end.
+
+Definition dense_from_sparse (rsize : N) (elems0 : list (N * N)) : M unit drow :=
+  row_ctor (row_alloc_vec rsize ;;; sparse_fill (N.to_nat rsize) 0 (sort_by fst elems0)).
+
+Lemma sparse_fill_sat : forall n i it s h X,
+  Lg (owned_row s ++ X) h ->
+  sat (sparse_fill n i it s h)
+      (fun _ s' h' => vec s' = vec s /\ cap s' = cap s /\
+                      length (coeffs s') = (length (coeffs s) + n)%nat /\
+                      Lg (owned_row s' ++ X) h')
+      (fun s' h' => Lg (owned_row s' ++ X) h').
+Proof.
+  induction n as [|n IH]; intros i it s h X HL; cbn [sparse_fill].
+  - cbn [ret sat]. split; [reflexivity|]. split; [reflexivity|]. split; [lia | exact HL].
+  - assert (Hpad : forall it',
+      sat ((row_pad 1 ;;; sparse_fill n (i + 1) it') s h)
+          (fun _ s' h' => vec s' = vec s /\ cap s' = cap s /\
+                          length (coeffs s') = (length (coeffs s) + S n)%nat /\
+                          Lg (owned_row s' ++ X) h')
+          (fun s' h' => Lg (owned_row s' ++ X) h')).
+    { intros it'. unfold row_pad. rewrite bind_modify. eapply sat_conseq.
+      - apply IH with (X := X). rewrite owned_row_pad. exact HL.
+      - cbn beta. cbn [vec cap coeffs]. intros _ s2 h2 [A [B [C D]]].
+        rewrite app_length in C. cbn [repeat length] in C.
+        split; [exact A|]. split; [exact B|]. split; [lia | exact D].
+      - cbn beta. intros s2 h2 H; exact H. }
+    destruct it as [|[idx lb] it']; [apply Hpad|].
+    destruct (N.eqb idx i); [|apply Hpad].
+    eapply sat_bind.
+    + apply alloc_sat; exact HL.
+    + cbn beta. intros s' h' [-> H]. exact H.
+    + cbn beta. intros b s1 h1 [-> HL1]. rewrite bind_modify.
+      eapply sat_conseq.
+      * apply IH with (X := X). unfold owned_row in *. cbn [vec cap coeffs].
+        rewrite coeffs_blks_app. cbn [coeffs_blks flat_map coeff_blk app].
+        eapply Lg_perm; [exact HL1|].
+        rewrite <- !app_assoc. cbn [app].
+        rewrite !app_assoc. apply Permutation_middle.
+      * cbn beta. cbn [vec cap coeffs]. intros _ s2 h2 [A [B [C D]]].
+        rewrite app_length in C. cbn [length] in C.
+        split; [exact A|]. split; [exact B|]. split; [lia | exact D].
+      * cbn beta. intros s2 h2 H; exact H.
+Qed.
+
+Lemma dense_from_sparse_sat : forall rsize elems0 (u : unit) h X,
+  Lg X h ->
+  sat (dense_from_sparse rsize elems0 u h)
+      (fun r _ h' => (row_inv r /\ cap r = rsize /\ dsize r = rsize)
+                     /\ Lg (owned_row r ++ X) h')
+      (fun _ h' => Lg X h').
+Proof.
+  intros rsize elems0 u h X HL. unfold dense_from_sparse.
+  apply row_ctor_sat with (Q := fun r => row_inv r /\ cap r = rsize /\ dsize r = rsize).
+  eapply sat_bind.
+  - apply row_alloc_vec_sat; exact HL.
+  - cbn beta. intros s' h' H; exact H.
+  - cbn beta. intros _ s1 h1 [[nv ->] HL1]. eapply sat_conseq.
+    + apply sparse_fill_sat; exact HL1.
+    + cbn beta. cbn [vec cap coeffs length]. intros _ s2 h2 [A [B [C D]]].
+      split; [|exact D]. unfold row_inv, dsize. rewrite A, B, C. cbn [Nat.add].
+      rewrite N2Nat.id. split; [split; [discriminate | lia]|]. split; reflexivity.
+    + cbn beta. intros s2 h2 H; exact H.
+Qed.
+
+Theorem dense_from_sparse_unwind_balanced : forall rsize elems0 k h,
+  wf h ->
+  match dense_from_sparse rsize elems0 tt (arm k h) with
+  | Ret r _ h' => wf h' /\ ledger_eq (live h') (owned_row r ++ live h)
+                  /\ row_inv r /\ NoDup (map fst (owned_row r))
+                  /\ cap r = rsize /\ dsize r = rsize
+  | Exn _ h' => wf h' /\ ledger_eq (live h') (live h)
+  | Bad _ => False
+  end.
+Proof.
+  intros rsize elems0 k h W.
+  pose proof (dense_from_sparse_sat rsize elems0 tt (arm k h) (live h)
+                (Lg_arm k _ _ (Lg_self h W))) as H.
+  destruct (dense_from_sparse rsize elems0 tt (arm k h)) as [r u h'|u h'|h']; cbn [sat] in H.
+  - destruct H as [[I [Hc Hd]] HL]. apply Lg_out in HL. tauto.
+  - exact H.
+  - exact H.
+Qed.
+
+Example dense_from_sparse_hyp_sat : wf empty_heap.
+Proof. exact wf_empty. Qed.
+
+(* ---------- observable interface for the new Dense_Row paths ---------- *)
+
+(* y = (ycap, limbs per coefficient, truncated to ycap); ycap = 0: y.vec == nullptr *)
+Definition tr_dense_copy_cap (ycap : N) (ycoeffs : list N) (capacity k : N) : obs :=
+  observe_c row_ids
+    (dense_copy_cap ycap (firstn (N.to_nat ycap) ycoeffs) capacity tt (start k empty_heap)).
+
+Definition tr_dense_copy_sized (ycoeffs : list N) (sz capacity k : N) : obs :=
+  observe_c row_ids (dense_copy_sized ycoeffs sz capacity tt (start k empty_heap)).
+
+(* the seeded mutant *)
+Definition tr_dense_copy_sized_late (ycoeffs : list N) (sz capacity k : N) : obs :=
+  observe_c row_ids (dense_copy_sized_late_size ycoeffs sz capacity tt (start k empty_heap)).
+
+(* receiver built as for tr_dense_resize *)
+Definition tr_dense_resize2 (cap0 : N) (cs : list N) (new_size new_capacity k : N) : obs :=
+  match build_row cap0 cs empty_row empty_heap with
+  | Ret _ r h0 => observe row_ids (dense_resize2 new_size new_capacity r (start k h0))
+  | _ => failed_setup
+  end.
+
+Definition tr_dense_ctor_sized (sz capacity k : N) : obs :=
+  observe_c row_ids (dense_ctor_sized sz capacity tt (start k empty_heap)).
+
+(* sparse row = (size, (index, limbs)); indexes >= size and repeated indexes dropped *)
+Definition tr_dense_from_sparse (rsize : N) (elems0 : list (N * N)) (k : N) : obs :=
+  let es := dedup_pos [] (filter (fun pl => N.ltb (fst pl) rsize) elems0) in
+  observe_c row_ids (dense_from_sparse rsize es tt (start k empty_heap)).
+
+(* ---- 5. Dense_Row::add_zeroes_and_shift(n, i)   Dense_Row.cc:179 ----
+   Coefficient(0) = mpz_init_set_si: ONE request of 8 bytes on LGmp.
+   newcap = compute_capacity(size + n, max_size()) is a parameter. *)
+Definition blk_coeff (b : blk) : option (nat * N) := Some (fst b, snd (snd b)).
+
+Definition add_zeroes_and_shift (n i newcap : N) : M drow unit :=
+  r <- get ;;
+  let cs := coeffs r in
+  let i' := N.to_nat i in
+  let n' := N.to_nat n in
+  if N.ltb (cap r) (dsize r + n) then
+    (* Dense_Row new_row; new_row.impl.vec = allocate(new_capacity); *)
+    nv <- alloc LNew (sz_coeff * newcap) ;;
+    (* try { n zeroes in new_row.vec[i..i+n-1] } catch (...) { destroy the zeroes
+       constructed so far, from the last one down; throw; }  and on that
+       exception new_row's destructor (size 0) deallocates new_row.vec *)
+    zs <- try_catch (raii_allocs (repeat (LGmp, 8) n')) (free LNew nv ;;; throw) ;;
+    (* memcpy; swap(vec), swap(capacity); size = new_size;
+       end of block: ~new_row (size 0) deallocates the OLD vec *)
+    free_opt LNew (vec r) ;;;
+    put (mkRow (Some nv) newcap (firstn i' cs ++ map blk_coeff zs ++ skipn i' cs))
+  else
+    (* memmove the tail up by n; impl.size = i; *)
+    put (mkRow (vec r) (cap r) (firstn i' cs)) ;;;
+    (* try { while (size != i + n) { new (&vec[size]) Coefficient(0); ++size; } size = new_size; }
+       catch (...) { destroy vec[i+n .. new_size) (the moved tail); throw; } *)
+    try_catch (copy_coeffs (repeat 0 n'))
+              (free_list (coeffs_blks (skipn i' cs)) ;;; throw) ;;;
+    modify (fun r => mkRow (vec r) (cap r) (coeffs r ++ skipn i' cs)).
+
+Lemma perm_ins {A} (z a b x : list A) (e : A) :
+  Permutation (z ++ e :: (a ++ b) ++ x) (e :: (a ++ z ++ b) ++ x).
+Proof.
+  eapply Permutation_trans; [apply Permutation_sym, Permutation_middle|].
+  apply perm_skip. rewrite <- !app_assoc. apply Permutation_app_swap_app.
+Qed.
+
+Lemma coeffs_blks_blk_coeff : forall zs m,
+  map snd zs = repeat (LGmp, 8) m -> coeffs_blks (map blk_coeff zs) = zs.
+Proof.
+  induction zs as [|[b [l sz]] zs IH]; intros m H; [reflexivity|].
+  destruct m as [|m]; [discriminate H|]. cbn in H. inversion H; subst.
+  unfold coeffs_blks in *. cbn [map flat_map blk_coeff coeff_blk fst snd app].
+  f_equal. eapply IH. eassumption.
+Qed.
+
+(* copy_coeffs with the facts needed on the exceptional exit *)
+Lemma copy_coeffs_sat2 : forall ls s h X,
+  Lg (owned_row s ++ X) h ->
+  sat (copy_coeffs ls s h)
+      (fun _ s' h' => vec s' = vec s /\ cap s' = cap s /\
+                      length (coeffs s') = (length (coeffs s) + length ls)%nat /\
+                      Lg (owned_row s' ++ X) h')
+      (fun s' h' => vec s' = vec s /\ cap s' = cap s /\
+                    (length (coeffs s') < length (coeffs s) + length ls)%nat /\
+                    Lg (owned_row s' ++ X) h').
+Proof.
+  induction ls as [|lb rest IH]; intros s h X HL; cbn [copy_coeffs].
+  - cbn [ret sat]. split; [reflexivity|]. split; [reflexivity|]. split; [cbn; lia | exact HL].
+  - eapply sat_bind.
+    + apply alloc_sat; exact HL.
+    + cbn beta. intros s' h' [-> H]. split; [reflexivity|]. split; [reflexivity|].
+      split; [cbn [length]; lia | exact H].
+    + cbn beta. intros b s1 h1 [-> HL1]. rewrite bind_modify.
+      eapply sat_conseq.
+      * apply IH with (X := X). unfold owned_row in *. cbn [vec cap coeffs].
+        rewrite coeffs_blks_app. cbn [coeffs_blks flat_map coeff_blk app].
+        eapply Lg_perm; [exact HL1|].
+        rewrite <- !app_assoc. cbn [app].
+        rewrite !app_assoc. apply Permutation_middle.
+      * cbn beta. cbn [vec cap coeffs]. intros _ s2 h2 [A [B [C D]]].
+        rewrite app_length in C. cbn [length] in *.
+        split; [exact A|]. split; [exact B|]. split; [lia | exact D].
+      * cbn beta. cbn [vec cap coeffs]. intros s2 h2 [A [B [C D]]].
+        rewrite app_length in C. cbn [length] in *.
+        split; [exact A|]. split; [exact B|]. split; [lia | exact D].
+Qed.
+
+Lemma add_zeroes_and_shift_sat : forall n i newcap s h X,
+  row_inv s -> i <= dsize s -> dsize s + n <= newcap ->
+  Lg (owned_row s ++ X) h ->
+  sat (add_zeroes_and_shift n i newcap s h)
+      (fun _ s' h' => row_inv s' /\ dsize s' = dsize s + n /\ Lg (owned_row s' ++ X) h')
+      (fun s' h' => row_inv s' /\
+                    (s' = s \/ (dsize s + n <= cap s /\ vec s' = vec s /\ cap s' = cap s))
+                    /\ Lg (owned_row s' ++ X) h').
+Proof.
+  intros n i newcap s h X [I0 I1] Hi Hc HL. unfold add_zeroes_and_shift.
+  rewrite bind_get. cbv zeta.
+  set (i' := N.to_nat i). set (n' := N.to_nat n).
+  assert (Hi' : (i' <= length (coeffs s))%nat) by (unfold i', dsize in *; lia).
+  destruct (N.ltb_spec (cap s) (dsize s + n)) as [Hlt|Hge].
+  - (* reallocation *)
+    eapply sat_bind.
+    + apply alloc_sat; exact HL.
+    + cbn beta. intros s' h' [-> H]. split; [split; assumption|]. split; [left; reflexivity | exact H].
+    + cbn beta. intros nv s1 h1 [-> HL1].
+      eapply sat_bind with
+        (E1 := fun s' h' => row_inv s' /\
+                 (s' = s \/ (dsize s + n <= cap s /\ vec s' = vec s /\ cap s' = cap s))
+                 /\ Lg (owned_row s' ++ X) h').
+      * eapply sat_try.
+        -- apply raii_allocs_sat; exact HL1.
+        -- cbn beta. intros a s' h' H; exact H.
+        -- cbn beta. intros s2 h2 [-> HL2]. eapply sat_bind.
+           ++ eapply free_sat; [exact HL2 | apply Permutation_refl].
+           ++ intros ? ? F; contradiction.
+           ++ cbn beta. intros _ s3 h3 [-> HL3]. cbn [throw sat].
+              split; [split; assumption|]. split; [left; reflexivity | exact HL3].
+      * intros s' h' H; exact H.
+      * cbn beta. intros zs s2 h2 [-> [Hz HL2]].
+        set (env := (nv, (LNew, sz_coeff * newcap))) in *.
+        eapply sat_bind.
+        -- eapply free_opt_sat with
+             (X := env :: (coeffs_blks (firstn i' (coeffs s)) ++ zs ++ coeffs_blks (skipn i' (coeffs s))) ++ X);
+             [exact HL2|].
+           unfold owned_row. rewrite <- (firstn_skipn i' (coeffs s)) at 1.
+           rewrite coeffs_blks_app.
+           rewrite (app_assoc (opt_blk LNew (sz_coeff * cap s) (vec s))).
+           (* zs ++ env :: ((v ++ a) ++ b) ++ X  ~  v ++ env :: (a ++ zs ++ b) ++ X *)
+           eapply Permutation_trans.
+           { apply (perm_ins zs (opt_blk LNew (sz_coeff * cap s) (vec s) ++ coeffs_blks (firstn i' (coeffs s)))
+                             (coeffs_blks (skipn i' (coeffs s))) X env).
+             }
+           rewrite <- !app_assoc. apply Permutation_middle.
+        -- intros ? ? F; contradiction.
+        -- cbn beta. intros _ s3 h3 [-> HL3]. cbn [put sat].
+           assert (Hzl : length zs = n').
+           { pose proof (map_length snd zs) as Hm. rewrite Hz, repeat_length in Hm.
+             symmetry; exact Hm. }
+           unfold row_inv, dsize, owned_row in *. cbn [vec cap coeffs opt_blk app].
+           rewrite !app_length, map_length, firstn_length, skipn_length, Hzl.
+           split; [split; [discriminate | unfold n'; lia]|].
+           split; [unfold n'; lia|].
+           rewrite !coeffs_blks_app, (coeffs_blks_blk_coeff zs n' Hz). exact HL3.
+  - (* within capacity *)
+    rewrite bind_put.
+    set (s1 := mkRow (vec s) (cap s) (firstn i' (coeffs s))).
+    assert (HL1 : Lg (owned_row s1 ++ coeffs_blks (skipn i' (coeffs s)) ++ X) h).
+    { eapply Lg_perm; [exact HL|]. unfold owned_row, s1. cbn [vec cap coeffs].
+      rewrite <- (firstn_skipn i' (coeffs s)) at 1. rewrite coeffs_blks_app.
+      rewrite <- !app_assoc. apply Permutation_refl. }
+    eapply sat_bind with
+      (Q1 := fun _ s2 h2 => vec s2 = vec s /\ cap s2 = cap s /\
+                            length (coeffs s2) = (i' + n')%nat /\
+                            Lg (owned_row s2 ++ coeffs_blks (skipn i' (coeffs s)) ++ X) h2)
+      (E1 := fun s' h' => row_inv s' /\
+                 (s' = s \/ (dsize s + n <= cap s /\ vec s' = vec s /\ cap s' = cap s))
+                 /\ Lg (owned_row s' ++ X) h').
+    + eapply sat_try.
+      * apply copy_coeffs_sat2; exact HL1.
+      * cbn beta. unfold s1. cbn [vec cap coeffs]. intros a s2 h2 [A [B [C D]]].
+        rewrite firstn_length, repeat_length in C.
+        split; [exact A|]. split; [exact B|]. split; [lia | exact D].
+      * cbn beta. unfold s1. cbn [vec cap coeffs]. intros s2 h2 [A [B [C D]]].
+        rewrite firstn_length, repeat_length in C.
+        eapply sat_bind.
+        -- eapply free_list_sat with (X := owned_row s2 ++ X); [exact D|].
+           rewrite !app_assoc. apply Permutation_app_tail. apply Permutation_app_comm.
+        -- intros ? ? F; contradiction.
+        -- cbn beta. intros _ s3 h3 [-> HL3]. cbn [throw sat].
+           split; [|split; [|exact HL3]].
+           ++ unfold row_inv, dsize in *. rewrite A, B. split; [exact I0 | unfold n' in *; lia].
+           ++ right. split; [exact Hge|]. split; [exact A | exact B].
+    + intros s' h' H; exact H.
+    + cbn beta. intros _ s2 h2 [A [B [C D]]]. cbn [modify sat].
+      unfold row_inv, dsize, owned_row in *. cbn [vec cap coeffs]. rewrite A, B in D |- *.
+      rewrite app_length, skipn_length, C.
+      split; [split; [exact I0 | unfold n' in *; lia]|].
+      split; [unfold n'; lia|].
+      rewrite coeffs_blks_app. eapply Lg_perm; [exact D|]. rewrite <- !app_assoc.
+      apply Permutation_refl.
+Qed.
+
+(* On failure: reallocation branch -> receiver unchanged; within-capacity branch
+   -> the row keeps vec/capacity, holds the first i coefficients plus the zeroes
+   built so far, and the moved tail has been destroyed (valid row, balanced). *)
+Theorem dense_add_zeroes_and_shift_unwind_balanced : forall n i newcap r k h X,
+  wf h -> row_inv r -> i <= dsize r -> dsize r + n <= newcap ->
+  ledger_eq (live h) (owned_row r ++ X) ->
+  match add_zeroes_and_shift n i newcap r (arm k h) with
+  | Ret _ r' h' => wf h' /\ ledger_eq (live h') (owned_row r' ++ X)
+                   /\ row_inv r' /\ NoDup (map fst (owned_row r'))
+                   /\ dsize r' = dsize r + n
+  | Exn r' h' => wf h' /\ ledger_eq (live h') (owned_row r' ++ X) /\ row_inv r'
+                 /\ (r' = r \/ (dsize r + n <= cap r /\ vec r' = vec r /\ cap r' = cap r))
+  | Bad _ => False
+  end.
+Proof.
+  intros n i newcap r k h X W I Hi Hc P.
+  pose proof (add_zeroes_and_shift_sat n i newcap r (arm k h) X I Hi Hc
+                (Lg_arm k _ _ (conj W P))) as H.
+  destruct (add_zeroes_and_shift n i newcap r (arm k h)) as [a r' h'|r' h'|h']; cbn [sat] in H.
+  - destruct H as [I' [Hd HL]]. apply Lg_out in HL. tauto.
+  - destruct H as [I' [D [W' P']]]. auto.
+  - exact H.
+Qed.
+
+Example dense_add_zeroes_and_shift_hyp_sat :
+  wf wit_row_heap /\ row_inv wit_row /\ 1 <= dsize wit_row /\ dsize wit_row + 2 <= 8 /\
+  ledger_eq (live wit_row_heap) (owned_row wit_row ++ []).
+Proof.
+  destruct wit_row_ok as [W [I P]]. split; [exact W|]. split; [exact I|].
+  split; [cbn; lia|]. split; [cbn; lia | exact P].
+Qed.
+
+(* receiver built as for tr_dense_resize; newcap = compute_capacity(size + n, max_size()) *)
+Definition tr_dense_add_zeroes (cap0 : N) (cs : list N) (n i newcap k : N) : obs :=
+  match build_row cap0 cs empty_row empty_heap with
+  | Ret _ r h0 => observe row_ids (add_zeroes_and_shift n i newcap r (start k h0))
+  | _ => failed_setup
+  end.
+
+(* ---------- examples for the new Dense_Row paths (vm_compute) ---------- *)
+
+Example ex_tr_dense_copy_sized :
+  map (tr_dense_copy_sized [1; 0; 2] 5 6) [1; 2; 3; 4; 5] =
+  [(false, [EvFail LNew 96], 0, 0);
+   (false, [EvAlloc LNew 96; EvFail LGmp 8; EvFree LNew 96], 0, 0);
+   (false, [EvAlloc LNew 96; EvAlloc LGmp 8; EvFail LGmp 8; EvFree LGmp 8; EvFree LNew 96], 0, 0);
+   (false, [EvAlloc LNew 96; EvAlloc LGmp 8; EvAlloc LGmp 8; EvFail LGmp 16;
+            EvFree LGmp 8; EvFree LGmp 8; EvFree LNew 96], 0, 0);
+   (true, [EvAlloc LNew 96; EvAlloc LGmp 8; EvAlloc LGmp 8; EvAlloc LGmp 16], 0, 4)].
+Proof. vm_compute. reflexivity. Qed.
+
+(* sz < y.size(): only the first sz coefficients are copied *)
+Example ex_tr_dense_copy_sized_truncating :
+  tr_dense_copy_sized [1; 0; 2] 2 6 4 =
+  (true, [EvAlloc LNew 96; EvAlloc LGmp 8; EvAlloc LGmp 8], 0, 3).
+Proof. vm_compute. reflexivity. Qed.
+
+(* the seeded mutant: k = 3 leaves the first copied limb block behind *)
+Example ex_tr_dense_copy_sized_late :
+  map (tr_dense_copy_sized_late [1; 1] 2 2) [2; 3; 4] =
+  [(false, [EvAlloc LNew 32; EvFail LGmp 8; EvFree LNew 32], 0, 0);
+   (false, [EvAlloc LNew 32; EvAlloc LGmp 8; EvFail LGmp 8; EvFree LNew 32], 1, 0);
+   (true, [EvAlloc LNew 32; EvAlloc LGmp 8; EvAlloc LGmp 8], 0, 3)].
+Proof. vm_compute. reflexivity. Qed.
+
+Example ex_tr_dense_copy_cap :
+  map (tr_dense_copy_cap 3 [1; 0; 2] 5) [1; 2; 4; 5] =
+  [(false, [EvFail LNew 80], 0, 0);
+   (false, [EvAlloc LNew 80; EvFail LGmp 8; EvFree LNew 80], 0, 0);
+   (false, [EvAlloc LNew 80; EvAlloc LGmp 8; EvAlloc LGmp 8; EvFail LGmp 16;
+            EvFree LGmp 8; EvFree LGmp 8; EvFree LNew 80], 0, 0);
+   (true, [EvAlloc LNew 80; EvAlloc LGmp 8; EvAlloc LGmp 8; EvAlloc LGmp 16], 0, 4)].
+Proof. vm_compute. reflexivity. Qed.
+
+(* y.vec == nullptr: the vector is still allocated *)
+Example ex_tr_dense_copy_cap_null_source :
+  map (tr_dense_copy_cap 0 [] 4) [1; 2] =
+  [(false, [EvFail LNew 64], 0, 0); (true, [EvAlloc LNew 64], 0, 1)].
+Proof. vm_compute. reflexivity. Qed.
+
+Example ex_tr_dense_resize2 :
+  (map (tr_dense_resize2 3 [1; 0; 2] 5 8) [1; 2],      (* capacity grows *)
+   map (tr_dense_resize2 3 [1; 0; 2] 1 2) [1; 2],      (* capacity shrinks: shrink FIRST *)
+   tr_dense_resize2 3 [1; 0; 2] 0 0 1,                 (* new_capacity = 0: destroy() *)
+   tr_dense_resize2 3 [1; 0; 2] 2 3 1) =               (* equal capacity: nothing is done *)
+  ([(false, [EvFail LNew 128], 0, 3); (true, [EvAlloc LNew 128; EvFree LNew 48], 0, 3)],
+   [(false, [EvFree LGmp 16; EvFail LNew 32], 0, 2);
+    (true, [EvFree LGmp 16; EvAlloc LNew 32; EvFree LNew 48], 0, 2)],
+   (true, [EvFree LGmp 16; EvFree LGmp 8; EvFree LNew 48], 0, 0),
+   (true, [], 0, 3)).
+Proof. vm_compute. reflexivity. Qed.
+
+Example ex_tr_dense_ctor_sized :
+  map (tr_dense_ctor_sized 2 4) [1; 2] =
+  [(false, [EvFail LNew 64], 0, 0); (true, [EvAlloc LNew 64], 0, 1)].
+Proof. vm_compute. reflexivity. Qed.
+
+Example ex_tr_dense_from_sparse :
+  map (tr_dense_from_sparse 4 [(2, 2); (0, 1)]) [1; 2; 3; 4] =
+  [(false, [EvFail LNew 64], 0, 0);
+   (false, [EvAlloc LNew 64; EvFail LGmp 8; EvFree LNew 64], 0, 0);
+   (false, [EvAlloc LNew 64; EvAlloc LGmp 8; EvFail LGmp 16; EvFree LGmp 8; EvFree LNew 64], 0, 0);
+   (true, [EvAlloc LNew 64; EvAlloc LGmp 8; EvAlloc LGmp 16], 0, 3)].
+Proof. vm_compute. reflexivity. Qed.
+
+(* row.size() = 0: allocate(0) is modelled as a request of 0 bytes *)
+Example ex_tr_dense_from_sparse_empty :
+  map (tr_dense_from_sparse 0 []) [1; 2] =
+  [(false, [EvFail LNew 0], 0, 0); (true, [EvAlloc LNew 0], 0, 1)].
+Proof. vm_compute. reflexivity. Qed.
+
+Example ex_tr_dense_add_zeroes :
+  (map (tr_dense_add_zeroes 3 [1; 0; 2] 2 1 12) [1; 2; 3; 4],     (* reallocation *)
+   map (tr_dense_add_zeroes 6 [1; 0; 2] 2 1 12) [1; 2; 3]) =      (* within capacity *)
+  ([(false, [EvFail LNew 192], 0, 3);
+    (false, [EvAlloc LNew 192; EvFail LGmp 8; EvFree LNew 192], 0, 3);
+    (false, [EvAlloc LNew 192; EvAlloc LGmp 8; EvFail LGmp 8; EvFree LGmp 8; EvFree LNew 192], 0, 3);
+    (true, [EvAlloc LNew 192; EvAlloc LGmp 8; EvAlloc LGmp 8; EvFree LNew 48], 0, 5)],
+   [(false, [EvFail LGmp 8; EvFree LGmp 16], 0, 2);
+    (false, [EvAlloc LGmp 8; EvFail LGmp 8; EvFree LGmp 16], 0, 3);
+    (true, [EvAlloc LGmp 8; EvAlloc LGmp 8], 0, 5)]).
+Proof. vm_compute. reflexivity. Qed.
